@@ -632,27 +632,17 @@ class FiniteAutomaton:
         of the final states can be reached.
         """
         leading_to_final = self.final_states.copy()
-        visited = set()
-        states_to_process = deque((None, start_state)
-                                  for start_state in self.start_states)
-        delayed_states = deque()
+        previous_states = {}
+        for state in self.states:
+            for next_state in self._get_next_states_from(state):
+                previous_states.setdefault(next_state, set()).add(state)
+        states_to_process = deque(leading_to_final)
         while states_to_process:
-            previous_state, current_state = states_to_process.pop()
-            if previous_state and current_state in leading_to_final:
-                leading_to_final.add(previous_state)
-                continue
-            if current_state in visited:
-                delayed_states.append((previous_state, current_state))
-                continue
-            visited.add(current_state)
-            next_states = self._get_next_states_from(current_state)
-            if next_states:
-                states_to_process.append((previous_state, current_state))
-                for next_state in next_states:
-                    states_to_process.append((current_state, next_state))
-        for previous_state, current_state in delayed_states:
-            if previous_state and current_state in leading_to_final:
-                leading_to_final.add(previous_state)
+            current_state = states_to_process.popleft()
+            for previous_state in previous_states.get(current_state, ()):
+                if previous_state not in leading_to_final:
+                    leading_to_final.add(previous_state)
+                    states_to_process.append(previous_state)
         return leading_to_final
 
     def _get_reachable_states(self) -> Set[State]:
